@@ -182,6 +182,12 @@ class Evaluator(object):
             return parity8(self.ev(args[0]))
         if op == '!':
             return (~self.ev(args[0])) & mask
+        if op in ('bsf', 'bsr') and len(args) == 1:
+            # the machine keeps these symbolic; any fixed function of the operand serves (both sides use this one)
+            v = self.ev(args[0]) & mask
+            if v == 0:
+                return 0
+            return (v & -v).bit_length() - 1 if op == 'bsf' else v.bit_length() - 1
         raise Unsupported('op ' + op)
 
 
